@@ -25,6 +25,9 @@ echo "== run checks on /repo with the patch applied"
 if [ -n "$(git -C /repo status --porcelain --untracked-files=no)" ]; then echo "REFUSING: /repo has uncommitted changes (commit contract files first)"; exit 3; fi
 cd /repo && git apply "$OUT/patch.diff" || { echo "patch does not apply to /repo"; exit 2; }
 for q in $PROPS; do
+  # the evidence file is rewritten by every run: keep the one from the quiet run on the unchanged tree
+  [ -f /verif/evidence/$q.json ] && cp /verif/evidence/$q.json /tmp/try_seed_ev_$q.json
   (cd /verif && ./run.sh $q quick 2>&1 | cut -c1-300 | tail -4)
+  [ -f /tmp/try_seed_ev_$q.json ] && mv /tmp/try_seed_ev_$q.json /verif/evidence/$q.json
 done
 cd /repo && git checkout -q -- . && git status --short | head -3
